@@ -263,6 +263,9 @@ class Hooks:
     def global_name(self, eng, name):
         raise Unsupported(f"name {name}")
 
+    def yield_(self, eng, value, env):
+        raise Unsupported("yield")
+
     def subscript(self, eng, obj, idx):
         raise Unsupported(f"subscript of {obj!r}")
 
@@ -1072,6 +1075,9 @@ class Engine:
             return z3.Concat(*[_s(p) for p in parts]) if len(parts) > 1 else _s(parts[0])
         if isinstance(e, ast.Lambda):
             return ("lambda", e, env)
+        if isinstance(e, ast.Yield):
+            # a generator-based context manager: the hook plays the body of the ``with`` block (returns, or raises)
+            return self.hooks.yield_(self, self.eval(e.value, env) if e.value is not None else None, env)
         if isinstance(e, (ast.ListComp, ast.GeneratorExp, ast.SetComp)):
             if len(e.generators) != 1:
                 raise Unsupported("nested comprehension")
